@@ -134,7 +134,7 @@ func oracleProofs(probes [][]byte, working bool) Oracle {
 	return Oracle{Name: "proofs", Fn: func(w *World) *Violation {
 		t, m := w.Tree, w.M
 		var trees []proofTree
-		for _, v := range m.Versions() {
+		for _, v := range m.VersionsDesc() {
 			it, err := t.GetImmutable(v)
 			if err != nil {
 				return viol("proof", "GetImmutable(%d): %v", v, err)
